@@ -81,14 +81,15 @@ FLOORS = {
               "front.buffered.attempts": 300, "front.buffered.commits": 400, "lines.schedules": 60,
               "lines.yields": 150000, "proc.histories": 6, "proc.commits": 28, "proc.lockerrors": 35,
               "proc.reads_under_lock": 40, "progress.fresh_writer_ok": 240},
-    "thorough": {"schedules": 1500, "sched.steps": 3000000, "interleavings.distinct": 1200,
-                 "attempts.lockerror": 1500, "commits.successful": 4000, "attempts.overlapping": 2500,
-                 "lock.failed_tries.justified": 2500, "mutex.acquisitions_checked": 5000,
-                 "reads.after_commit": 4000, "finish.cancel": 250, "finish.exception": 250,
-                 "timeout.lower_bound_checked": 1500, "storage.ram.schedules": 400, "storage.file.schedules": 400,
-                 "front.async.attempts": 250, "front.buffered.attempts": 250, "proc.histories": 30,
-                 "proc.commits": 100, "progress.fresh_writer_ok": 1500, "lines.schedules": 100,
-                 "lines.yields": 50000},
+    # thorough floors = about 1/4 of one 16-shard x 660 s run on the same busy machine
+    "thorough": {"schedules": 6000, "sched.steps": 19000000, "interleavings.distinct": 6000,
+                 "attempts.lockerror": 30000, "commits.successful": 48000, "attempts.overlapping": 48000,
+                 "lock.failed_tries.justified": 600000, "mutex.acquisitions_checked": 59000,
+                 "reads.after_commit": 40000, "finish.cancel": 7000, "finish.exception": 4800,
+                 "timeout.lower_bound_checked": 30000, "storage.ram.schedules": 3000, "storage.file.schedules": 3000,
+                 "front.async.attempts": 9000, "front.buffered.attempts": 9000, "proc.histories": 200,
+                 "proc.commits": 1300, "progress.fresh_writer_ok": 6000, "lines.schedules": 2000,
+                 "lines.yields": 6000000},
 }
 
 VOCAB = ["alfa", "bravo", "charlie", "delta", "echo", "foxtrot"]
